@@ -299,7 +299,9 @@ class MG:
         self.loop = None        # (lo, hi) numeric
         self.infun = None       # list of readable slots when generating a function body
         self.cdim = self.N + 1 if rng.random() < 0.7 else self.N
-        self.dims = {"a": self.N, "c": self.cdim}
+        self.W = rng.randint(6, 8)
+        self.dims = {"a": self.N, "c": self.cdim, "w": self.W}
+        self.arrays = ["a", "c", "w"]
         self.scalars = ["x1", "x2", "x3", "y1", "u1", "p1", "p2", "k1"]
 
     # ---- expressions ----
@@ -323,14 +325,27 @@ class MG:
             if r.random() < 0.2:
                 return ["loopvar"]
             return self.lidx()
-        arr = r.choice(["a", "c"])
+        arr = r.choice(self.arrays)
         return ["idx", arr, r.randint(1, self.dims[arr])]
 
-    def lidx(self):
+    def lidx(self, arr=None):
+        """x[<subscript of the loop index>], every value of the subscript inside 1..dim:
+        i+k | c-i | n+k-i (reversals) | a*i-c | i*i"""
+        r = self.rng
         lo, hi = self.loop
-        arr = self.rng.choice(["a", "c"])
-        ks = [k for k in (-1, 0, 0, 0, 1, 2) if lo + k >= 1 and hi + k <= self.dims[arr]]
-        return ["lidx", arr, self.rng.choice(ks)]
+        arr = arr or r.choice(self.arrays)
+        D = self.dims[arr]
+        forms = [k for k in (-1, 0, 0, 0, 1, 2) if lo + k >= 1 and hi + k <= D]
+        forms += [["rev", c] for c in range(hi + 1, D + lo + 1)]
+        forms += [["nrev", k] for k in (-1, 0, 1, 2) if self.N + k - hi >= 1 and self.N + k - lo <= D]
+        forms += [["lin", 2, c] for c in range(2 * hi - D, 2 * lo) if -2 <= c <= 3]
+        if hi * hi <= D:
+            forms.append(["sq"])
+        plain = [f for f in forms if isinstance(f, int)]
+        fancy = [f for f in forms if not isinstance(f, int)]
+        if fancy and r.random() < 0.45:
+            return ["lidx", arr, r.choice(fancy)]
+        return ["lidx", arr, r.choice(plain)]
 
     def cond(self, d):
         r = self.rng
@@ -400,7 +415,7 @@ class MG:
             return ["v", r.choice(["x1", "x2", "x3", "y1"])]
         if x < 0.7:
             return ["der", r.choice(["x1", "x2"])]
-        arr = r.choice(["a", "c"])
+        arr = r.choice(self.arrays)
         return ["idx", arr, r.randint(1, self.dims[arr])]
 
     def hi_ib(self, hi):
@@ -428,7 +443,11 @@ class MG:
             body = []
             for _ in range(r.choice([1, 1, 2, 3])):
                 l = self.lidx()
-                body.append([l, self.real(r.choice([1, 2]))])
+                rhs = self.real(r.choice([1, 2]))
+                if r.random() < 0.4:      # one array under several different subscripts of i
+                    arr = r.choice(self.arrays)
+                    rhs = ["bin", r.choice(["+", "-", "*"]), ["bin", "-", self.lidx(arr), self.lidx(arr)], rhs]
+                body.append([l, rhs])
             self.loop = None
             return ["for", lo, self.hi_ib(hi), body]
         if x < 0.90:
@@ -460,6 +479,7 @@ class MG:
             {"name": "a", "prefix": r.choice([[], [], ["output"]]), "type": "Real", "dim": ["par", "n", 0], "value": None, "attrs": []},
             {"name": "c", "prefix": [], "type": "Real",
              "dim": ["par", "n", 1] if self.cdim == self.N + 1 else r.choice([["par", "n", 0], ["lit", self.N]]), "value": None, "attrs": []},
+            {"name": "w", "prefix": [], "type": "Real", "dim": ["lit", self.W], "value": None, "attrs": []},
         ]
         single = [f for f in self.funs if f["nout"] == 1]
         y = r.random()
@@ -520,7 +540,7 @@ def pe(e):
     if t == "idx":
         return "%s[%d]" % (e[1], e[2])
     if t == "lidx":
-        return "%s[i]" % e[1] if e[2] == 0 else "%s[i%s%d]" % (e[1], "+" if e[2] > 0 else "-", abs(e[2]))
+        return "%s[%s]" % (e[1], psub(e[2]))
     if t == "loopvar":
         return "i"
     if t == "arg":
@@ -538,6 +558,20 @@ def pe(e):
     if t == "call":
         return "%s(%s, %s)" % (e[1], pe(e[2]), pe(e[3]))
     raise ValueError(t)
+
+
+def psub(f):
+    if isinstance(f, int):
+        return "i" if f == 0 else "i%s%d" % ("+" if f > 0 else "-", abs(f))
+    if f[0] == "rev":
+        return "%d - i" % f[1]
+    if f[0] == "nrev":
+        return "n - i" if f[1] == 0 else "n %s %d - i" % ("+" if f[1] > 0 else "-", abs(f[1]))
+    if f[0] == "lin":
+        return "%d * i" % f[1] if f[2] == 0 else "%d * i %s %d" % (f[1], "-" if f[2] > 0 else "+", abs(f[2]))
+    if f[0] == "sq":
+        return "i * i"
+    raise ValueError(f)
 
 
 def pib(b):
@@ -728,7 +762,22 @@ def cqc(s):
     return "(Q2Qc (%d # %d))" % (f.numerator, f.denominator)
 
 
+def csub(f, N):
+    if isinstance(f, int):
+        return "(IOff %s)" % cq_Z(f)
+    if f[0] == "rev":
+        return "(IRev %s)" % cq_Z(f[1])
+    if f[0] == "nrev":
+        return "(IRev %s)" % cq_Z(N + f[1])        # n + k - i with the parameter's value (get_integer resolves n)
+    if f[0] == "lin":
+        return "(ILin %s %s)" % (cq_Z(f[1]), cq_Z(-f[2]))
+    if f[0] == "sq":
+        return "ISq"
+    raise ValueError(f)
+
+
 def cx(e, ids, fids):
+    N = ids["#N"]
     t = e[0]
     if t == "num":
         return "(SNum %s)" % cqc(e[1])
@@ -739,7 +788,7 @@ def cx(e, ids, fids):
     if t == "idx":
         return "(SRef (SI %s %s))" % (cq_nat(ids[e[1]]), cq_Z(e[2]))
     if t == "lidx":
-        return "(SRef (SL %s %s))" % (cq_nat(ids[e[1]]), cq_Z(e[2]))
+        return "(SRef (SL %s %s))" % (cq_nat(ids[e[1]]), csub(e[2], N))
     if t == "loopvar":
         return "(SRef SLoop)"
     if t == "arg":
@@ -788,6 +837,7 @@ def cq_eqs(qs, ids, fids):
 
 def cq_model(m):
     ids = {d["name"]: i for i, d in enumerate(m["decls"])}
+    ids["#N"] = m["N"]
     fids = {f["name"]: f["id"] for f in m["funs"]}
     decls = []
     for i, d in enumerate(m["decls"]):
@@ -871,6 +921,7 @@ def corpus():
         {"name": "a", "prefix": [], "type": "Real", "dim": ["par", "n", 0], "value": None, "attrs": []},
         {"name": "c", "prefix": [], "type": "Real", "dim": ["par", "n", 1], "value": None, "attrs": []},
         {"name": "z", "prefix": [], "type": "Real", "dim": ["par", "n", -3], "value": None, "attrs": []},
+        {"name": "w", "prefix": [], "type": "Real", "dim": ["lit", 7], "value": None, "attrs": []},
         {"name": "u1", "prefix": ["input"], "type": "Real", "dim": None, "value": None, "attrs": []},
         {"name": "p1", "prefix": ["parameter"], "type": "Real", "dim": None, "value": NUM("1.5"), "attrs": []},
         {"name": "p2", "prefix": ["parameter"], "type": "Real", "dim": None, "value": ["bin", "*", V("p1"), NUM("2")], "attrs": []},
@@ -882,6 +933,8 @@ def corpus():
            ["for", 2, ["par", "n", 0], [[["lidx", "c", 0], ["if", ["bin", "and", V("b1"), ["bin", ">", ["lidx", "a", -1], NUM("0")]],
                                                                ["call", "f1", ["lidx", "a", 0], V("x2")], V("k1")]]]],
            ["fordelay", 1, ["lit", 1], ["lidx", "c", 0], ["lidx", "a", 1], NUM("0.5")],
+           ["for", 1, ["lit", 2], [[["lidx", "w", ["rev", 4]], ["bin", "-", ["lidx", "w", ["lin", 2, -3]], ["lidx", "w", ["sq"]]]],
+                                   [["lidx", "w", ["lin", 2, 1]], ["bin", "*", ["lidx", "c", ["nrev", 1]], ["lidx", "a", ["rev", 3]]]]]],
            ["delay", ["idx", "c", 4], ["bin", "*", V("x2"), V("p2")], V("p1")],
            ["eq", V("b1"), ["bin", ">", V("x1"), V("x2")]],
            ["eq", V("x2"), ["bin", "-", V("time"), ["der", "x1"]]]]
@@ -921,6 +974,12 @@ def tag_of(m, case, res):
 
 def to_case(m, fixed):
     return {"kind": "model", "name": m["name"], "text": m["text"], "points": m["points"], "fixed": fixed, "combos": COMBOS}
+
+
+def make_group(rng, members, cases):
+    order = [[j, ci] for j in range(len(members)) for ci in range(len(COMBOS))]
+    rng.shuffle(order)
+    return {"members": members, "case": {"kind": "group", "models": [cases[i] for i in members], "order": order}}
 
 
 def run_models(ctx, cases):
@@ -963,8 +1022,21 @@ def run(ctx):
     cases2 = [to_case(m, SIMPL_FIXED) for m in simpl_models]
     import time as _t
     t0 = _t.time()
-    allres = run_models(ctx, cases + cases2)
-    results, results2 = allres[:len(cases)], allres[len(cases):]
+    # stream 1 runs INTERLEAVED: groups of 2 (sometimes 3) different models, all 8 x k compilations first, then the
+    # evaluations in a shuffled order; stream 2 one model at a time
+    groups, gi = [], 0
+    while gi < len(cases):
+        k = 3 if (ctx.rng.random() < 0.25 and gi + 3 <= len(cases)) else 2
+        groups.append(make_group(ctx.rng, list(range(gi, min(gi + k, len(cases)))), cases))
+        gi += k
+    allres = run_models(ctx, [g["case"] for g in groups] + cases2)
+    results = [None] * len(cases)
+    group_of = {}
+    for g, r in zip(groups, allres[:len(groups)]):
+        for j, i in enumerate(g["members"]):
+            group_of[i] = g
+            results[i] = r["models"][j] if "models" in r else r        # a crash takes the whole group
+    results2 = allres[len(groups):]
     ctx.notes["t_child_s"] = round(_t.time() - t0, 1)
 
     # (a) oracle
@@ -974,13 +1046,23 @@ def run(ctx):
     feat = {}
     for stream, ms, cs, rs in (("no simplification option", models, cases, results),
                                ("substitution options fixed", simpl_models, cases2, results2)):
-        for m, c, r in zip(ms, cs, rs):
+        for mi_, (m, c, r) in enumerate(zip(ms, cs, rs)):
             why = judge(c, r)
             evals += n_values(r)
             if why:
-                core.report(ctx, tag_of(m, c, r), why,
-                            {"input": slim(m), "fixed": c["fixed"], "combos": COMBOS, "stream": stream,
-                             "expected": "identical lists/metadata and numerically equal output functions under all 8 flag combinations"})
+                payload = {"input": slim(m), "fixed": c["fixed"], "combos": COMBOS, "stream": stream,
+                           "expected": "identical lists/metadata and numerically equal output functions under all 8 flag combinations"}
+                g = group_of.get(mi_) if ms is models else None
+                if g is not None and len([v for v in ctx.violations if not v["no_input"]]) < core.MAX_REPLAYS:
+                    alone = run_models(ctx, [c])[0]
+                    if judge(c, alone) is None:
+                        # only the interleaving shows it: the replay is the whole group with its evaluation order
+                        payload["group"] = [slim(models[i]) for i in g["members"]]
+                        payload["order"] = g["case"]["order"]
+                        payload["member"] = g["members"].index(mi_)
+                        payload["stream"] = stream + ", interleaved (compile all, then evaluate in shuffled order)"
+                        why = "only when interleaved with other models: " + why
+                core.report(ctx, tag_of(m, c, r), why, payload)
             if "combos" in r and all(o.get("ok") for o in r["combos"]):
                 distinct.add(m["text"])
             elif "combos" in r and not any(o.get("ok") for o in r["combos"]):
@@ -1068,7 +1150,13 @@ def replay(ctx, path):
         return 1
     case = to_case(m, rec.get("fixed", PLAIN_FIXED))
     case["combos"] = rec.get("combos", COMBOS)
-    r = run_models(ctx, [case])[0]
+    if rec.get("group"):
+        gcase = {"kind": "group", "order": rec["order"],
+                 "models": [dict(to_case(x, rec.get("fixed", PLAIN_FIXED)), combos=case["combos"]) for x in rec["group"]]}
+        gr = run_models(ctx, [gcase])[0]
+        r = gr["models"][rec["member"]] if "models" in gr else gr
+    else:
+        r = run_models(ctx, [case])[0]
     why = judge(case, r)
     if why:
         print("tag:", tag_of(m, case, r))
